@@ -1,5 +1,679 @@
-From Coq Require Import String ZArith List Bool Lia.
+(** C07 - proofs.  Everything here is about the definitions of Model.v that the correspondence executes. *)
+From Coq Require Import String ZArith List Bool Lia Permutation Reals QArith Qreals Lra.
 From HV Require Import Common.Generic C07.Model.
 Import ListNotations.
+Open Scope Z_scope.
+
+(** ------------------------------------------------------------------ ranges, znth *)
+Lemma zrange_from_length i n : length (zrange_from i n) = n.
+Proof. revert i; induction n; intros; simpl; [reflexivity|now rewrite IHn]. Qed.
+
+Lemma zrange_from_nth n : forall i k d, (k < n)%nat -> nth k (zrange_from i n) d = i + Z.of_nat k.
+Proof. induction n; intros i k d H; [lia|]. destruct k; simpl; [lia|]. rewrite IHn by lia. lia. Qed.
+
+Lemma zrange_from_In n : forall i x, In x (zrange_from i n) <-> i <= x < i + Z.of_nat n.
+Proof. induction n; intros i x; simpl; [lia|]. rewrite IHn. lia. Qed.
+
+Lemma zrange_from_NoDup n : forall i, NoDup (zrange_from i n).
+Proof. induction n; intros i; simpl; constructor; [|apply IHn]. rewrite zrange_from_In. lia. Qed.
+
+Lemma zlen_nonneg {A} (l : list A) : 0 <= zlen l.
+Proof. unfold zlen. lia. Qed.
+
+Lemma zlen_zrange n : zlen (zrange n) = Z.max 0 n.
+Proof. unfold zlen, zrange. rewrite zrange_from_length. lia. Qed.
+
+Lemma In_zrange n x : In x (zrange n) <-> 0 <= x < n.
+Proof. unfold zrange. rewrite zrange_from_In. lia. Qed.
+
+Lemma znth_zrange d n k : 0 <= k < n -> znth d (zrange n) k = k.
+Proof. intros H. unfold znth, zrange. rewrite zrange_from_nth by lia. lia. Qed.
+
+Lemma znth_indep {A} (d d' : A) l k : 0 <= k < zlen l -> znth d l k = znth d' l k.
+Proof. unfold znth, zlen. intros H. apply nth_indep. lia. Qed.
+
+Lemma znth_map {A B} (f : A -> B) d d' l k : 0 <= k < zlen l -> znth d (map f l) k = f (znth d' l k).
+Proof. unfold znth, zlen. intros H. rewrite (nth_indep _ d (f d')) by (rewrite map_length; lia). apply map_nth. Qed.
+
+Lemma znth_In {A} (d : A) l k : 0 <= k < zlen l -> In (znth d l k) l.
+Proof. unfold znth, zlen. intros H. apply nth_In. lia. Qed.
+
+Lemma zlen_map {A B} (f : A -> B) l : zlen (map f l) = zlen l.
+Proof. unfold zlen. now rewrite map_length. Qed.
+
+Lemma map_znth_zrange {A} (d : A) l : map (znth d l) (zrange (zlen l)) = l.
+Proof.
+  unfold zrange, zlen, znth. rewrite Nat2Z.id.
+  assert (G : forall (l0 : list A) (m : nat) (pre : list A), length pre = m ->
+            map (fun k => nth (Z.to_nat k) (pre ++ l0) d) (zrange_from (Z.of_nat m) (length l0)) = l0).
+  { induction l0 as [|a t IH]; intros m pre Hm; simpl; [reflexivity|]. f_equal.
+    - rewrite Nat2Z.id, app_nth2 by lia. now rewrite Hm, Nat.sub_diag.
+    - replace (Z.of_nat m + 1) with (Z.of_nat (S m)) by lia.
+      replace (pre ++ a :: t) with ((pre ++ [a]) ++ t) by (now rewrite <- app_assoc).
+      apply IH. rewrite app_length. simpl. lia. }
+  apply (G l 0%nat []). reflexivity.
+Qed.
+
+(** ------------------------------------------------------------------ flat index <-> (i,j,l) *)
+Lemma flat_unflat_l ny nz i j l : 0 <= j < ny -> 0 <= l < nz ->
+  unflat ny nz (flat_index ny nz i j l) = (i, j, l).
+Proof.
+  intros Hj Hl. unfold unflat, flat_index.
+  assert (E3 : ((i * ny + j) * nz + l) mod nz = l).
+  { symmetry. apply (Z.mod_unique_pos _ _ (i * ny + j)); [lia|ring]. }
+  assert (E2 : ((i * ny + j) * nz + l) / nz = i * ny + j).
+  { symmetry. apply (Z.div_unique_pos _ _ _ l); [lia|ring]. }
+  assert (E2' : (i * ny + j) mod ny = j).
+  { symmetry. apply (Z.mod_unique_pos _ _ i); [lia|ring]. }
+  assert (E1 : ((i * ny + j) * nz + l) / (ny * nz) = i).
+  { symmetry. apply (Z.div_unique_pos _ _ _ (j * nz + l)); [nia|ring]. }
+  now rewrite E1, E2, E2', E3.
+Qed.
+
+Lemma unflat_flat_l ny nz k : 0 < ny -> 0 < nz ->
+  let '(i, j, l) := unflat ny nz k in
+  flat_index ny nz i j l = k /\ 0 <= j < ny /\ 0 <= l < nz.
+Proof.
+  intros Hy Hz. unfold unflat, flat_index.
+  replace (k / (ny * nz)) with (k / nz / ny) by (rewrite Z.div_div by lia; f_equal; ring).
+  pose proof (Z.div_mod k nz ltac:(lia)). pose proof (Z.div_mod (k / nz) ny ltac:(lia)).
+  pose proof (Z.mod_pos_bound k nz Hz). pose proof (Z.mod_pos_bound (k / nz) ny Hy).
+  repeat split; try lia; nia.
+Qed.
+
+Lemma unflat_range nx ny nz k : 0 < ny -> 0 < nz -> 0 <= k < nx * ny * nz ->
+  0 <= fst (fst (unflat ny nz k)) < nx.
+Proof.
+  intros Hy Hz Hk. unfold unflat. cbn [fst]. assert (P : 0 < ny * nz) by nia. split.
+  - apply Z.div_pos; lia.
+  - apply Z.div_lt_upper_bound; [lia|]. replace (ny * nz * nx) with (nx * ny * nz) by ring. lia.
+Qed.
+
+Lemma flat_index_range nx ny nz i j l : 0 <= i < nx -> 0 <= j < ny -> 0 <= l < nz ->
+  0 <= flat_index ny nz i j l < nx * ny * nz.
+Proof.
+  unfold flat_index. intros Hi Hj Hl.
+  assert (A1 : 0 <= i * ny) by (apply Z.mul_nonneg_nonneg; lia).
+  assert (A2 : i * ny <= (nx - 1) * ny) by (apply Z.mul_le_mono_nonneg_r; lia).
+  assert (A3 : 0 <= i * ny + j <= nx * ny - 1) by lia.
+  assert (A4 : 0 <= (i * ny + j) * nz) by (apply Z.mul_nonneg_nonneg; lia).
+  assert (A5 : (i * ny + j) * nz <= (nx * ny - 1) * nz) by (apply Z.mul_le_mono_nonneg_r; lia).
+  lia.
+Qed.
+
+Lemma flat_index_inj ny nz i j l i' j' l' : 0 <= j < ny -> 0 <= l < nz -> 0 <= j' < ny -> 0 <= l' < nz ->
+  flat_index ny nz i j l = flat_index ny nz i' j' l' -> (i, j, l) = (i', j', l').
+Proof. intros Hj Hl Hj' Hl' E. rewrite <- (flat_unflat_l ny nz i j l), E by assumption. now apply flat_unflat_l. Qed.
+
+(** ------------------------------------------------------------------ the x-major product *)
+Lemma flat_map_uniform_length {A B} (f : A -> list B) m xs :
+  (forall x, length (f x) = m) -> length (flat_map f xs) = (length xs * m)%nat.
+Proof. intros H. induction xs; simpl; [reflexivity|]. rewrite app_length, IHxs, H. lia. Qed.
+
+Lemma flat_map_uniform_nth {A B} (f : A -> list B) m da d : (forall x, length (f x) = m) ->
+  forall xs i j, (i < length xs)%nat -> (j < m)%nat ->
+  nth (i * m + j) (flat_map f xs) d = nth j (f (nth i xs da)) d.
+Proof.
+  intros H. induction xs as [|x t IH]; intros i j Hi Hj; simpl in Hi; [lia|]. simpl flat_map.
+  destruct i.
+  - change (0 * m + j)%nat with j. rewrite app_nth1 by (rewrite H; lia). reflexivity.
+  - replace (S i * m + j)%nat with (m + (i * m + j))%nat by lia.
+    rewrite app_nth2 by (rewrite H; lia). rewrite H.
+    replace (m + (i * m + j) - m)%nat with (i * m + j)%nat by lia.
+    change (nth (S i) (x :: t) da) with (nth i t da). apply IH; lia.
+Qed.
+
+Lemma product3_length {A B C} (xs : list A) (ys : list B) (zs : list C) :
+  length (product3 xs ys zs) = (length xs * (length ys * length zs))%nat.
+Proof.
+  unfold product3. apply flat_map_uniform_length. intros x.
+  apply flat_map_uniform_length. intros y. apply map_length.
+Qed.
+
+Lemma product3_nth_nat {A B C} (xs : list A) (ys : list B) (zs : list C) da db dc i j l :
+  (i < length xs)%nat -> (j < length ys)%nat -> (l < length zs)%nat ->
+  nth ((i * length ys + j) * length zs + l) (product3 xs ys zs) (da, db, dc) = (nth i xs da, nth j ys db, nth l zs dc).
+Proof.
+  intros Hi Hj Hl. unfold product3.
+  replace ((i * length ys + j) * length zs + l)%nat with (i * (length ys * length zs) + (j * length zs + l))%nat by lia.
+  rewrite (flat_map_uniform_nth _ (length ys * length zs)%nat da); [| |assumption|nia].
+  2:{ intros x. apply flat_map_uniform_length. intros y. apply map_length. }
+  rewrite (flat_map_uniform_nth _ (length zs) db); [| |assumption|assumption].
+  2:{ intros y. apply map_length. }
+  rewrite (nth_indep _ (da, db, dc) ((fun z => (nth i xs da, nth j ys db, z)) dc)) by (rewrite map_length; lia).
+  apply (map_nth (fun z => (nth i xs da, nth j ys db, z))).
+Qed.
+
+Lemma zlen_product3 {A B C} (xs : list A) (ys : list B) (zs : list C) :
+  zlen (product3 xs ys zs) = zlen xs * zlen ys * zlen zs.
+Proof. unfold zlen. rewrite product3_length. lia. Qed.
+
+(** element flat_index(i,j,l) of the stacked list is (x_i, y_j, z_l) *)
+Lemma product3_znth {A B C} (xs : list A) (ys : list B) (zs : list C) d da db dc i j l :
+  0 <= i < zlen xs -> 0 <= j < zlen ys -> 0 <= l < zlen zs ->
+  znth d (product3 xs ys zs) (flat_index (zlen ys) (zlen zs) i j l) = (znth da xs i, znth db ys j, znth dc zs l).
+Proof.
+  intros Hi Hj Hl.
+  assert (R : 0 <= flat_index (zlen ys) (zlen zs) i j l < zlen (product3 xs ys zs)).
+  { rewrite zlen_product3. apply flat_index_range; assumption. }
+  rewrite (znth_indep d (da, db, dc)) by exact R.
+  unfold znth, flat_index, zlen in *.
+  rewrite <- (Z2Nat.id i), <- (Z2Nat.id j), <- (Z2Nat.id l) at 1 by lia.
+  rewrite <- !Nat2Z.inj_mul, <- !Nat2Z.inj_add, <- !Nat2Z.inj_mul, <- !Nat2Z.inj_add, Nat2Z.id.
+  apply product3_nth_nat; lia.
+Qed.
+
+Lemma In_product3 {A B C} (xs : list A) (ys : list B) (zs : list C) x y z :
+  In (x, y, z) (product3 xs ys zs) <-> In x xs /\ In y ys /\ In z zs.
+Proof.
+  unfold product3. rewrite in_flat_map. split.
+  - intros (x' & Hx & H). rewrite in_flat_map in H. destruct H as (y' & Hy & H).
+    rewrite in_map_iff in H. destruct H as (z' & E & Hz). inversion E; subst. tauto.
+  - intros (Hx & Hy & Hz). exists x. split; [assumption|]. rewrite in_flat_map. exists y. split; [assumption|].
+    rewrite in_map_iff. exists z. tauto.
+Qed.
+
+Lemma product3_map {A B C A' B' C'} (f : A -> A') (g : B -> B') (h : C -> C') xs ys zs :
+  product3 (map f xs) (map g ys) (map h zs) =
+  map (fun p : A * B * C => let '(x, y, z) := p in (f x, g y, h z)) (product3 xs ys zs).
+Proof.
+  unfold product3. induction xs as [|x xt IHx]; simpl; [reflexivity|]. rewrite map_app, IHx. f_equal.
+  clear IHx. induction ys as [|y yt IHy]; simpl; [reflexivity|]. rewrite map_app, IHy. f_equal.
+  rewrite !map_map. reflexivity.
+Qed.
+
+Lemma NoDup_app_intro {A} (l1 l2 : list A) :
+  NoDup l1 -> NoDup l2 -> (forall x, In x l1 -> In x l2 -> False) -> NoDup (l1 ++ l2).
+Proof.
+  intros H1 H2 D. induction H1 as [|a t Ha H1 IH]; simpl; [assumption|]. constructor.
+  - rewrite in_app_iff. intros [H|H]; [contradiction|]. apply (D a); [now left|assumption].
+  - apply IH. intros x Hx. apply D. now right.
+Qed.
+
+Lemma product3_NoDup {A B C} (xs : list A) (ys : list B) (zs : list C) :
+  NoDup xs -> NoDup ys -> NoDup zs -> NoDup (product3 xs ys zs).
+Proof.
+  intros Hx Hy Hz. unfold product3. induction Hx as [|x xt Hnx Hx IHx]; simpl; [constructor|].
+  assert (Hinner : forall x0 : A, NoDup (flat_map (fun y : B => map (fun z : C => (x0, y, z)) zs) ys)).
+  { intros x0. clear -Hy Hz. induction Hy as [|y yt Hny Hy IHy]; simpl; [constructor|].
+    apply NoDup_app_intro; [|assumption|].
+    - apply FinFun.Injective_map_NoDup; [|assumption]. intros a b E. now inversion E.
+    - intros p H1 H2. rewrite in_map_iff in H1. destruct H1 as (z & <- & _).
+      rewrite in_flat_map in H2. destruct H2 as (y' & Hy' & H2). rewrite in_map_iff in H2.
+      destruct H2 as (z' & E & _). inversion E; subst. contradiction. }
+  apply NoDup_app_intro; [apply Hinner|apply IHx|].
+  intros p H1 H2. rewrite in_flat_map in H1, H2. destruct H1 as (y & _ & H1). destruct H2 as (x' & Hx' & H2).
+  rewrite in_map_iff in H1. destruct H1 as (z & <- & _).
+  rewrite in_flat_map in H2. destruct H2 as (y' & _ & H2). rewrite in_map_iff in H2.
+  destruct H2 as (z' & E & _). inversion E; subst. contradiction.
+Qed.
+
+(** ------------------------------------------------------------------ grids: coordinates in flat order *)
+Section Grid.
+Context {T : Type} (O : Ops T).
+
+Lemma zlen_arange_mul n s : zlen (arange_mul O n s) = Z.max 0 n.
+Proof. unfold arange_mul. now rewrite zlen_map, zlen_zrange. Qed.
+
+Lemma znth_arange_mul d n s i : 0 <= i < n -> znth d (arange_mul O n s) i = mul O (ofZ O i) s.
+Proof.
+  intros H. unfold arange_mul. rewrite (znth_map _ d 0) by (rewrite zlen_zrange; lia).
+  now rewrite znth_zrange.
+Qed.
+
+Lemma zlen_flat_coords (a : axes T) :
+  zlen (flat_coords a) = zlen (fst (fst a)) * zlen (snd (fst a)) * zlen (snd a).
+Proof. destruct a as [[xs ys] zs]. apply zlen_product3. Qed.
+
+(** element flat_index(i,j,l) of the flat coordinate list of ANY axes is (x_i, y_j, z_l) *)
+Lemma flat_coords_znth (xs ys zs : list T) d dx dy dz i j l :
+  0 <= i < zlen xs -> 0 <= j < zlen ys -> 0 <= l < zlen zs ->
+  znth d (flat_coords (xs, ys, zs)) (flat_index (zlen ys) (zlen zs) i j l) = (znth dx xs i, znth dy ys j, znth dz zs l).
+Proof. apply product3_znth. Qed.
+
+(** the k-th flat pixel sits at (x_i, y_j, z_l) with (i,j,l) = unflat k : every flat pixel is covered *)
+Lemma flat_coords_unflat (xs ys zs : list T) d dx dy dz k :
+  0 <= k < zlen (flat_coords (xs, ys, zs)) ->
+  let '(i, j, l) := unflat (zlen ys) (zlen zs) k in
+  znth d (flat_coords (xs, ys, zs)) k = (znth dx xs i, znth dy ys j, znth dz zs l).
+Proof.
+  intros Hk. rewrite zlen_flat_coords in Hk. cbn [fst snd] in Hk.
+  pose proof (zlen_nonneg xs). pose proof (zlen_nonneg ys). pose proof (zlen_nonneg zs).
+  assert (Hy : 0 < zlen ys) by nia. assert (Hz : 0 < zlen zs) by nia.
+  pose proof (unflat_flat_l (zlen ys) (zlen zs) k Hy Hz) as U.
+  pose proof (unflat_range (zlen xs) (zlen ys) (zlen zs) k Hy Hz Hk) as Ri.
+  destruct (unflat (zlen ys) (zlen zs) k) as [[i j] l]. cbn [fst] in Ri.
+  destruct U as (E & Hj & Hl). rewrite <- E at 1. now apply flat_coords_znth.
+Qed.
+
+(** make_coords: pixel (i,j) of an nx x ny grid with spacing (sx,sy) at height z *)
+Lemma make_coords_znth nx ny sx sy z d i j : 0 <= i < nx -> 0 <= j < ny ->
+  znth d (flat_coords (make_coords O nx ny sx sy z)) (flat_index ny 1 i j 0)
+  = (mul O (ofZ O i) sx, mul O (ofZ O j) sy, z).
+Proof.
+  intros Hi Hj. unfold make_coords.
+  pose proof (flat_coords_znth (arange_mul O nx sx) (arange_mul O ny sy) [z] d (zero O) (zero O) (zero O) i j 0) as P.
+  rewrite !zlen_arange_mul in P. replace (Z.max 0 ny) with ny in P by lia. change (zlen [z]) with 1 in P.
+  rewrite P by lia. now rewrite !znth_arange_mul by lia.
+Qed.
+
+Lemma make_coords_length nx ny sx sy z : 0 <= nx -> 0 <= ny ->
+  zlen (flat_coords (make_coords O nx ny sx sy z)) = nx * ny.
+Proof. intros. unfold make_coords. rewrite zlen_flat_coords. cbn [fst snd]. rewrite !zlen_arange_mul. change (zlen [z]) with 1. lia. Qed.
+
+(** shifted origin: the flat list of the re-assigned coordinates is the shifted flat list *)
+Definition shift_pos (t p : pos T) : pos T :=
+  let '(tx, ty, tz) := t in let '(x, y, z) := p in (add O x tx, add O y ty, add O z tz).
+Lemma flat_coords_shift a t : flat_coords (shift_axes O a t) = map (shift_pos t) (flat_coords a).
+Proof.
+  destruct a as [[xs ys] zs], t as [[tx ty] tz]. unfold shift_axes, flat_coords. rewrite product3_map.
+  apply map_ext. intros [[x y] z]. reflexivity.
+Qed.
+
+(** a crop re-uses the selected axis entries *)
+Lemma flat_coords_crop (xs ys zs : list T) xi yj d :
+  Forall (fun k => 0 <= k < zlen xs) xi -> Forall (fun k => 0 <= k < zlen ys) yj ->
+  flat_coords (crop_axes O (xs, ys, zs) xi yj)
+  = subset d (crop_sel (zlen ys) (zlen zs) xi yj (zrange (zlen zs))) (flat_coords (xs, ys, zs)).
+Proof.
+  intros Hx Hy. unfold crop_axes, crop_sel, subset at 3, flat_coords. rewrite map_map.
+  rewrite <- (map_znth_zrange (zero O) zs) at 1. unfold subset. rewrite product3_map.
+  apply map_ext_in. intros [[i j] l] Hin. apply In_product3 in Hin. destruct Hin as (Hi & Hj & Hl).
+  rewrite Forall_forall in Hx, Hy. apply In_zrange in Hl.
+  symmetry. apply product3_znth; auto.
+Qed.
+End Grid.
+
+(** ------------------------------------------------------------------ stored image <-> flat values *)
+Lemma stack_vals_znth {V} (d : V) nx ny nz data i j l : 0 <= i < nx -> 0 <= j < ny -> 0 <= l < nz ->
+  znth d (stack_vals d nx ny nz data) (flat_index ny nz i j l) = znth d data (storage_index nx ny i j l).
+Proof.
+  intros Hi Hj Hl. unfold stack_vals.
+  assert (L : forall n, 0 <= n -> zlen (zrange n) = n) by (intros; rewrite zlen_zrange; lia).
+  rewrite (znth_map _ d (0, 0, 0)).
+  2:{ rewrite zlen_product3, !L by lia. apply flat_index_range; assumption. }
+  pose proof (product3_znth (zrange nx) (zrange ny) (zrange nz) (0, 0, 0) 0 0 0 i j l) as P.
+  rewrite !L in P by lia. rewrite P by assumption. now rewrite !znth_zrange by assumption.
+Qed.
+
+(** flat() followed by from_flat() gives back every stored pixel *)
+Lemma unstack_stack {V} (d : V) nx ny nz data i j l : 0 <= i < nx -> 0 <= j < ny -> 0 <= l < nz ->
+  unstack_at d ny nz (stack_vals d nx ny nz data) i j l = znth d data (storage_index nx ny i j l).
+Proof. apply stack_vals_znth. Qed.
+
+(** ------------------------------------------------------------------ explicit point lists *)
+Definition px {T} (p : T * T * T) : T := fst (fst p).
+Definition py {T} (p : T * T * T) : T := snd (fst p).
+Definition pz {T} (p : T * T * T) : T := snd p.
+
+Lemma rep_sing_self {A} (l : list A) : rep_sing (length l) l = l.
+Proof. destruct l as [|a [|b t]]; reflexivity. Qed.
+
+Lemma zip3_unzip {T} (pts : list (T * T * T)) : zip3 (map px pts) (map py pts) (map pz pts) = pts.
+Proof. induction pts as [|[[x y] z] t IH]; simpl; [reflexivity|]. now rewrite IH. Qed.
+
+Lemma det_points_unzip {T} (pts : list (T * T * T)) : det_points (map px pts) (map py pts) (map pz pts) = pts.
+Proof.
+  unfold det_points. rewrite !map_length, !Nat.max_id.
+  rewrite <- (map_length px pts) at 1. rewrite rep_sing_self.
+  rewrite <- (map_length py pts) at 1. rewrite rep_sing_self.
+  rewrite <- (map_length pz pts) at 1. rewrite rep_sing_self. apply zip3_unzip.
+Qed.
+
+(** detector_points(x, y, z=scalar): the scalar is repeated *)
+Lemma det_points_scalar_z {T} (xs ys : list T) z : length xs = length ys -> (1 <= length xs)%nat ->
+  det_points xs ys [z] = zip3 xs ys (repeat z (length xs)).
+Proof.
+  intros E H. unfold det_points. rewrite <- E. simpl length.
+  replace (Nat.max (length xs) (Nat.max (length xs) 1)) with (length xs) by lia.
+  rewrite rep_sing_self. rewrite E at 1. rewrite rep_sing_self. reflexivity.
+Qed.
+
+(** ------------------------------------------------------------------ selections *)
 Lemma select_commutes_l {A B} (f : A -> B) d sel l : map f (subset d sel l) = subset (f d) sel (map f l).
 Proof. unfold subset, znth. rewrite map_map. apply map_ext. intros k. symmetry. apply map_nth. Qed.
+
+Lemma subset_length {V} (d : V) sel l : zlen (subset d sel l) = zlen sel.
+Proof. unfold subset. apply zlen_map. Qed.
+
+Lemma subset_znth {V} (d : V) sel l p : 0 <= p < zlen sel -> znth d (subset d sel l) p = znth d l (znth 0 sel p).
+Proof. intros H. unfold subset. now rewrite (znth_map _ d 0). Qed.
+
+Lemma subset_default_irrelevant {V} (d d' : V) sel l :
+  Forall (fun k => 0 <= k < zlen l) sel -> subset d sel l = subset d' sel l.
+Proof. intros H. unfold subset. apply map_ext_in. intros k Hk. rewrite Forall_forall in H. apply znth_indep. auto. Qed.
+
+Lemma subset_all {V} (d : V) l : subset d (zrange (zlen l)) l = l.
+Proof. apply map_znth_zrange. Qed.
+
+(** the RNG contract, as a proposition *)
+Lemma nodupb_NoDup l : nodupb l = true <-> NoDup l.
+Proof.
+  induction l as [|x t IH]; simpl; [split; [constructor|reflexivity]|].
+  rewrite andb_true_iff, negb_true_iff, IH. split.
+  - intros [H1 H2]. constructor; [|assumption]. intros Hin.
+    assert (existsb (Z.eqb x) t = true) by (apply existsb_exists; exists x; split; [assumption|apply Z.eqb_refl]). congruence.
+  - intros H. inversion H as [|? ? Hn Ht]; subst. split; [|assumption].
+    destruct (existsb (Z.eqb x) t) eqn:E; [|reflexivity]. apply existsb_exists in E.
+    destruct E as (y & Hy & Hxy). apply Z.eqb_eq in Hxy. subst. contradiction.
+Qed.
+
+Lemma sel_ok_spec n m sel :
+  sel_ok n m sel = true <-> zlen sel = m /\ Forall (fun k => 0 <= k < n) sel /\ NoDup sel.
+Proof.
+  unfold sel_ok. rewrite !andb_true_iff, Z.eqb_eq, nodupb_NoDup, forallb_forall, Forall_forall.
+  split.
+  - intros [[H1 H2] H3]. split; [assumption|split; [|assumption]].
+    intros k Hk. specialize (H2 k Hk). rewrite andb_true_iff in H2. lia.
+  - intros (H1 & H2 & H3). split; [split; [assumption|]|assumption].
+    intros k Hk. specialize (H2 k Hk). apply andb_true_iff. lia.
+Qed.
+
+Lemma subset_NoDup {V} (d : V) sel l :
+  NoDup l -> NoDup sel -> Forall (fun k => 0 <= k < zlen l) sel -> NoDup (subset d sel l).
+Proof.
+  intros Hl Hs Hr. unfold subset. induction Hs as [|k t Hk Hs IH]; simpl; [constructor|].
+  inversion Hr as [|? ? Hk0 Ht]; subst. constructor; [|now apply IH].
+  intros Hin. apply in_map_iff in Hin. destruct Hin as (k' & E & Hk').
+  rewrite Forall_forall in Ht. specialize (Ht k' Hk'). unfold znth, zlen in *.
+  apply (proj1 (NoDup_nth l d) Hl) in E; [|lia|lia]. assert (k' = k) by lia. subst. contradiction.
+Qed.
+
+Lemma sel_all_permutation n sel : 0 <= n -> zlen sel = n -> Forall (fun k => 0 <= k < n) sel -> NoDup sel ->
+  Permutation sel (zrange n).
+Proof.
+  intros Hn Hl Hr Hd. apply NoDup_Permutation_bis; [assumption| |].
+  - unfold zrange, zlen in *. rewrite zrange_from_length. lia.
+  - intros k Hk. rewrite Forall_forall in Hr. apply In_zrange. auto.
+Qed.
+
+Lemma subset_all_pixels_permutation {V} (d : V) sel l :
+  sel_ok (zlen l) (zlen l) sel = true -> Permutation (subset d sel l) l.
+Proof.
+  intros H. apply sel_ok_spec in H. destruct H as (H1 & H2 & H3).
+  rewrite <- (subset_all d l) at 2. unfold subset. apply Permutation_map.
+  apply sel_all_permutation; auto. apply zlen_nonneg.
+Qed.
+
+(** ------------------------------------------------------------------ crops (subimage): python-slice semantics *)
+Lemma py_norm_range n a : 0 <= n -> 0 <= py_norm n a <= n.
+Proof. intros H. unfold py_norm. destruct (Z.ltb_spec a 0); lia. Qed.
+
+Lemma slice_idx_In n a b k : In k (slice_idx n a b) <-> py_norm n a <= k < py_norm n b.
+Proof. unfold slice_idx. rewrite zrange_from_In. lia. Qed.
+
+Lemma crop_idx_range n c2 s : 0 <= n -> Forall (fun k => 0 <= k < n) (crop_idx n c2 s).
+Proof.
+  intros H. unfold crop_idx. destruct (sub_extent c2 s) as [a b]. apply Forall_forall. intros k Hk.
+  apply slice_idx_In in Hk. pose proof (py_norm_range n a H). pose proof (py_norm_range n b H). lia.
+Qed.
+
+Lemma crop_idx_NoDup n c2 s : NoDup (crop_idx n c2 s).
+Proof. unfold crop_idx. destruct (sub_extent c2 s). unfold slice_idx. apply zrange_from_NoDup. Qed.
+
+Lemma rhe2_even m : rhe2 (2 * m) = m.
+Proof.
+  unfold rhe2. cbn zeta. replace (2 * m / 2) with m by (apply Z.div_unique_exact; lia).
+  replace (2 * m mod 2) with 0; [reflexivity|]. apply (Z.mod_unique_pos _ _ m); lia.
+Qed.
+
+(** a window of even size 2h around an integer centre c that lies inside the image keeps exactly
+    the pixels c-h .. c+h-1 *)
+Lemma crop_idx_inside_even n c h : 0 <= c - h -> c + h <= n -> 0 <= h ->
+  crop_idx n (2 * c) (2 * h) = zrange_from (c - h) (Z.to_nat (2 * h)).
+Proof.
+  intros H1 H2 H3. unfold crop_idx, sub_extent. rewrite rhe2_even.
+  replace (2 * c - 2 * h) with (2 * (c - h)) by ring. replace (2 * c + 2 * h) with (2 * (c + h)) by ring.
+  rewrite !rhe2_even. unfold slice_idx, py_norm.
+  destruct (Z.ltb_spec (c - h) 0); [lia|]. destruct (Z.ltb_spec (c + h) 0); [lia|].
+  rewrite !Z.min_l by lia. f_equal. lia.
+Qed.
+
+Lemma crop_sel_range nx ny nz xi yj zl :
+  Forall (fun k => 0 <= k < nx) xi -> Forall (fun k => 0 <= k < ny) yj -> Forall (fun k => 0 <= k < nz) zl ->
+  Forall (fun k => 0 <= k < nx * ny * nz) (crop_sel ny nz xi yj zl).
+Proof.
+  intros Hx Hy Hz. unfold crop_sel. apply Forall_forall. intros k Hk. apply in_map_iff in Hk.
+  destruct Hk as ([[i j] l] & <- & Hin). apply In_product3 in Hin. destruct Hin as (Hi & Hj & Hl).
+  rewrite Forall_forall in Hx, Hy, Hz. apply flat_index_range; auto.
+Qed.
+
+Lemma crop_sel_NoDup nx ny nz xi yj zl :
+  Forall (fun k => 0 <= k < nx) xi -> Forall (fun k => 0 <= k < ny) yj -> Forall (fun k => 0 <= k < nz) zl ->
+  NoDup xi -> NoDup yj -> NoDup zl -> NoDup (crop_sel ny nz xi yj zl).
+Proof.
+  intros Hx Hy Hz Dx Dy Dz. unfold crop_sel. rewrite Forall_forall in Hx, Hy, Hz.
+  assert (G : forall l0 : list (Z * Z * Z), NoDup l0 ->
+            (forall i j l, In (i, j, l) l0 -> 0 <= j < ny /\ 0 <= l < nz) ->
+            NoDup (map (fun ijl : Z * Z * Z => let '(i, j, l) := ijl in flat_index ny nz i j l) l0)).
+  { induction 1 as [|[[i j] l] t Hn Hd IH]; intros R; simpl; constructor.
+    - intros Hin. apply in_map_iff in Hin. destruct Hin as ([[i' j'] l'] & E & Hin').
+      destruct (R i j l (or_introl eq_refl)). destruct (R i' j' l' (or_intror Hin')).
+      symmetry in E. apply (flat_index_inj ny nz i j l i' j' l') in E; try assumption. rewrite <- E in Hin'. contradiction.
+    - apply IH. intros i0 j0 l0 H0. apply (R i0 j0 l0). now right. }
+  apply G; [now apply product3_NoDup|]. intros i j l Hin. apply In_product3 in Hin. destruct Hin as (_ & Hj & Hl). auto.
+Qed.
+
+(** ------------------------------------------------------------------ calculations *)
+Section CalcThms.
+Context {T : Type} (O : Ops T) {V : Type}.
+
+(** for ANY theory (pointwise or not): a grid and the explicit point list of its coordinates
+    hand the theory the same array of positions, hence give the same values *)
+Lemma grid_eq_points_l (F : list (pos T) -> list V) k c a :
+  calc_grid O F k c a
+  = calc_points O F k c (det_points (map px (flat_coords a)) (map py (flat_coords a)) (map pz (flat_coords a))).
+Proof. unfold calc_grid, calc_points. now rewrite det_points_unzip. Qed.
+
+Variable f : pos T -> V.        (* a pointwise theory: F = map f *)
+
+Lemma calc_flat_pointwise k c coords :
+  calc_flat O (map f) k c coords = map (fun p => f (to_theory O k c p)) coords.
+Proof. unfold calc_flat, positions. apply map_map. Qed.
+
+Lemma calc_flat_length k c coords : zlen (calc_flat O (map f) k c coords) = zlen coords.
+Proof. rewrite calc_flat_pointwise. apply zlen_map. Qed.
+
+Lemma calc_flat_znth k c coords d dp p : 0 <= p < zlen coords ->
+  znth d (calc_flat O (map f) k c coords) p = f (to_theory O k c (znth dp coords p)).
+Proof. intros H. rewrite calc_flat_pointwise. exact (znth_map (fun p => f (to_theory O k c p)) d dp coords p H). Qed.
+
+(** THE property: two detectors of any kind; equal positions => equal values *)
+Lemma value_depends_only_on_position_l k c coords1 coords2 d dp p q :
+  0 <= p < zlen coords1 -> 0 <= q < zlen coords2 -> znth dp coords1 p = znth dp coords2 q ->
+  znth d (calc_flat O (map f) k c coords1) p = znth d (calc_flat O (map f) k c coords2) q.
+Proof. intros Hp Hq E. rewrite (calc_flat_znth _ _ _ d dp p Hp), (calc_flat_znth _ _ _ d dp q Hq). now rewrite E. Qed.
+
+Lemma calc_grid_pixel_l k c xs ys zs d dx dy dz i j l :
+  0 <= i < zlen xs -> 0 <= j < zlen ys -> 0 <= l < zlen zs ->
+  znth d (calc_grid O (map f) k c (xs, ys, zs)) (flat_index (zlen ys) (zlen zs) i j l)
+  = f (to_theory O k c (znth dx xs i, znth dy ys j, znth dz zs l)).
+Proof.
+  intros Hi Hj Hl. unfold calc_grid. rewrite (calc_flat_znth _ _ _ d (dx, dy, dz)).
+  - now rewrite (flat_coords_znth xs ys zs (dx, dy, dz) dx dy dz).
+  - rewrite zlen_flat_coords. cbn [fst snd]. now apply flat_index_range.
+Qed.
+
+Lemma calc_subset_commutes_l k c a sel :
+  calc_subset O (map f) k c a sel
+  = subset (f (to_theory O k c (zero O, zero O, zero O))) sel (calc_grid O (map f) k c a).
+Proof.
+  unfold calc_subset, calc_grid. rewrite !calc_flat_pointwise.
+  exact (select_commutes_l (fun p => f (to_theory O k c p)) (zero O, zero O, zero O) sel (flat_coords a)).
+Qed.
+
+Lemma calc_subset_pixel_l k c a sel d p :
+  0 <= p < zlen sel -> 0 <= znth 0 sel p < zlen (flat_coords a) ->
+  znth d (calc_subset O (map f) k c a sel) p = znth d (calc_grid O (map f) k c a) (znth 0 sel p).
+Proof.
+  intros Hp Hr. rewrite calc_subset_commutes_l.
+  rewrite (znth_indep d (f (to_theory O k c (zero O, zero O, zero O)))) by (rewrite subset_length; assumption).
+  rewrite subset_znth by assumption. apply znth_indep. unfold calc_grid. now rewrite calc_flat_length.
+Qed.
+
+Lemma calc_crop_commutes_l k c xs ys zs xi yj d :
+  Forall (fun k => 0 <= k < zlen xs) xi -> Forall (fun k => 0 <= k < zlen ys) yj ->
+  calc_grid O (map f) k c (crop_axes O (xs, ys, zs) xi yj)
+  = subset d (crop_sel (zlen ys) (zlen zs) xi yj (zrange (zlen zs))) (calc_grid O (map f) k c (xs, ys, zs)).
+Proof.
+  intros Hx Hy. unfold calc_grid.
+  rewrite (flat_coords_crop O xs ys zs xi yj (zero O, zero O, zero O) Hx Hy).
+  rewrite !calc_flat_pointwise, (select_commutes_l (fun p => f (to_theory O k c p))). apply subset_default_irrelevant.
+  rewrite zlen_map, zlen_flat_coords. cbn [fst snd]. apply crop_sel_range; try assumption.
+  apply Forall_forall. intros l Hl. now apply In_zrange.
+Qed.
+End CalcThms.
+
+(** ------------------------------------------------------------------ make_subset_data *)
+Lemma make_subset_keeps_l {T V} (O : Ops T) (dv : V) xs ys zs vals (at_ : attrs T) sel m :
+  zlen vals = zlen (flat_coords (xs, ys, zs)) -> 1 <= zlen zs -> sel_ok (tot_pix xs ys) m sel = true ->
+  let s := make_subset O dv (xs, ys, zs) vals at_ sel in
+  let d0 := (zero O, zero O, zero O) in
+  NoDup sel /\ zlen (ss_vals s) = m /\ zlen (ss_coords s) = m /\
+  (forall p, 0 <= p < m ->
+     0 <= znth 0 sel p < zlen vals /\
+     znth dv (ss_vals s) p = znth dv vals (znth 0 sel p) /\
+     znth d0 (ss_coords s) p = znth d0 (flat_coords (xs, ys, zs)) (znth 0 sel p)) /\
+  ss_attrs s = at_ /\
+  ss_orig s = [("z", zs); ("x", xs); ("y", ys)]%string /\
+  (NoDup xs -> NoDup ys -> NoDup zs -> NoDup (ss_coords s)).
+Proof.
+  intros Hv Hz Hs. apply sel_ok_spec in Hs. destruct Hs as (Hm & Hr & Hd). cbn zeta.
+  unfold make_subset. cbn [ss_vals ss_coords ss_attrs ss_orig].
+  assert (Hr' : Forall (fun k => 0 <= k < zlen (flat_coords (xs, ys, zs))) sel).
+  { rewrite zlen_flat_coords. cbn [fst snd]. unfold tot_pix in Hr. eapply Forall_impl; [|exact Hr].
+    intros k Hk. cbn beta in *. pose proof (zlen_nonneg xs). pose proof (zlen_nonneg ys). nia. }
+  split; [assumption|]. rewrite !subset_length. repeat split; try assumption.
+  - pose proof (znth_In 0 sel p ltac:(lia)) as Hin. rewrite Forall_forall in Hr'. specialize (Hr' _ Hin). lia.
+  - pose proof (znth_In 0 sel p ltac:(lia)) as Hin. rewrite Forall_forall in Hr'. specialize (Hr' _ Hin). lia.
+  - apply subset_znth. lia.
+  - apply subset_znth. lia.
+  - intros Dx Dy Dz. apply subset_NoDup; [now apply product3_NoDup|assumption|assumption].
+Qed.
+
+(** ------------------------------------------------------------------ purity and history independence of the model *)
+Section Purity.
+Context {T : Type} (O : Ops T) {V W : Type} (dv : V) (F : list (pos T) -> list W).
+
+Lemma step_input_unchanged (d : detector T V) o : fst (step O dv F d o) = d.
+Proof.
+  destruct o; simpl; try reflexivity.
+  - destruct (d_axes d) as [[xs ys] zs]. reflexivity.
+  - destruct d. reflexivity.
+Qed.
+
+Lemma run_spec : forall ops (d : detector T V),
+  run O dv F d ops = (d, map (fun o => snd (step O dv F d o)) ops).
+Proof.
+  induction ops as [|o t IH]; intros d; simpl; [reflexivity|].
+  pose proof (step_input_unchanged d o) as E. destruct (step O dv F d o) as [d1 r]. cbn [fst snd] in *. subst d1.
+  now rewrite IH.
+Qed.
+End Purity.
+
+(** ------------------------------------------------------------------ attrs (insertion-ordered dict) *)
+Section AttrThms.
+Context {T : Type}.
+Implicit Types (a : attrs T) (k : string) (v : option (list T)).
+
+Lemma get_set_same k v a : get_attr k (set_attr k v a) = Some v.
+Proof.
+  induction a as [|[k' v'] t IH]; simpl; [now rewrite String.eqb_refl|].
+  destruct (String.eqb k k') eqn:E; simpl; rewrite ?String.eqb_refl, ?E; auto.
+Qed.
+
+Lemma get_set_other k k' v a : k <> k' -> get_attr k' (set_attr k v a) = get_attr k' a.
+Proof.
+  intros N. induction a as [|[k2 v2] t IH]; simpl.
+  - destruct (String.eqb_spec k' k); [congruence|reflexivity].
+  - destruct (String.eqb_spec k k2); simpl.
+    + subst k2. destruct (String.eqb_spec k' k); [congruence|reflexivity].
+    + destruct (String.eqb k' k2); [reflexivity|exact IH].
+Qed.
+
+Lemma has_get k a : has_attr k a = match get_attr k a with Some _ => true | None => false end.
+Proof. unfold has_attr. induction a as [|[k' v'] t IH]; simpl; [reflexivity|]. destruct (String.eqb k k'); [reflexivity|exact IH]. Qed.
+
+Lemma get_app k a b : get_attr k (a ++ b) = match get_attr k a with Some x => Some x | None => get_attr k b end.
+Proof. induction a as [|[k' v'] t IH]; simpl; [reflexivity|]. destruct (String.eqb k k'); [reflexivity|exact IH]. Qed.
+
+Lemma get_none_notin k a : ~ In k (map fst a) -> get_attr k a = None.
+Proof.
+  induction a as [|[k' v'] t IH]; simpl; intros H; [reflexivity|].
+  destruct (String.eqb_spec k k'); [subst; tauto|]. apply IH. tauto.
+Qed.
+
+Lemma updated_get : forall (upd a : attrs T) k, NoDup (map fst upd) ->
+  get_attr k (updated a upd) = match get_attr k upd with Some (Some x) => Some (Some x) | _ => get_attr k a end.
+Proof.
+  unfold updated. induction upd as [|[k1 v1] t IH]; intros a k D; simpl; [reflexivity|].
+  inversion D as [|? ? Hn Dt]; subst. rewrite IH by assumption.
+  destruct (String.eqb_spec k k1).
+  - subst k1. rewrite (get_none_notin k t Hn). destruct v1; simpl; [apply get_set_same|reflexivity].
+  - destruct (get_attr k t) as [[x|]|]; try reflexivity; destruct v1; simpl; try reflexivity;
+      apply get_set_other; congruence.
+Qed.
+
+Lemma fill_get : forall (upd b : attrs T) k,
+  get_attr k (fold_left (fun (acc : attrs T) (kv : string * option (list T)) =>
+                           if has_attr (fst kv) acc then acc else acc ++ [(fst kv, None)]) upd b)
+  = match get_attr k b with Some x => Some x | None => if has_attr k upd then Some None else None end.
+Proof.
+  induction upd as [|[k1 v1] t IH]; intros b k; [simpl; now destruct (get_attr k b)|].
+  cbn [fold_left fst]. rewrite IH. clear IH.
+  replace (has_attr k ((k1, v1) :: t)) with (String.eqb k k1 || has_attr k t)%bool by reflexivity.
+  rewrite (has_get k1 b).
+  destruct (String.eqb_spec k k1) as [->|N]; cbn [orb].
+  - destruct (get_attr k1 b) eqn:E; [now rewrite E|]. rewrite get_app, E. simpl. now rewrite String.eqb_refl.
+  - destruct (get_attr k1 b) eqn:E1; [reflexivity|]. rewrite get_app. destruct (get_attr k b); [reflexivity|].
+    simpl. destruct (String.eqb_spec k k1); [congruence|reflexivity].
+Qed.
+
+(** update_metadata: input attrs untouched; output = explicit lookup semantics *)
+Lemma update_metadata_spec a mi wl pol nsd k :
+  let upd := [("medium_index", mi); ("illum_wavelen", wl); ("illum_polarization", pol); ("noise_sd", nsd)]%string in
+  fst (update_metadata a mi wl pol nsd) = a /\
+  get_attr k (snd (update_metadata a mi wl pol nsd)) =
+    match get_attr k upd with
+    | Some (Some x) => Some (Some x)                        (* a given value overwrites *)
+    | Some None => match get_attr k a with Some x => Some x | None => Some None end   (* None never overwrites; missing key is created as None *)
+    | None => get_attr k a                                  (* other keys are kept *)
+    end.
+Proof.
+  cbn zeta. unfold update_metadata. cbn [fst snd]. split; [reflexivity|].
+  rewrite fill_get, updated_get.
+  2:{ simpl. repeat constructor; simpl; intuition discriminate. }
+  rewrite has_get. destruct (get_attr k _) as [[x|]|]; try reflexivity; now destruct (get_attr k a).
+Qed.
+End AttrThms.
+
+(** ------------------------------------------------------------------ real numbers: translation, Q/R link *)
+Local Open Scope R_scope.
+Lemma to_theory_translate k (c p t : pos R) :
+  to_theory RO k (shift_pos RO t c) (shift_pos RO t p) = to_theory RO k c p.
+Proof.
+  destruct c as [[cx cy] cz], p as [[x y] z], t as [[tx ty] tz]. unfold to_theory, shift_pos. cbn [add sub mul RO].
+  f_equal; [f_equal|]; ring.
+Qed.
+
+(** moving detector and scatterer together: the theory is handed the same positions (any theory) *)
+Lemma calc_grid_translate {V} (F : list (pos R) -> list V) k c a t :
+  calc_grid RO F k (shift_pos RO t c) (shift_axes RO a t) = calc_grid RO F k c a.
+Proof.
+  unfold calc_grid, calc_flat, positions. rewrite flat_coords_shift, map_map. f_equal.
+  apply map_ext. intros p. apply to_theory_translate.
+Qed.
+
+Definition posQ2R (p : pos Q) : pos R := let '(x, y, z) := p in (Q2R x, Q2R y, Q2R z).
+Lemma to_theory_Q_R k c p : posQ2R (to_theory QO k c p) = to_theory RO (Q2R k) (posQ2R c) (posQ2R p).
+Proof.
+  destruct c as [[cx cy] cz], p as [[x y] z]. unfold to_theory, posQ2R.
+  f_equal; [f_equal|]; q2r.
+Qed.
+Lemma arange_mul_Q_R n s : map Q2R (arange_mul QO n s) = arange_mul RO n (Q2R s).
+Proof. unfold arange_mul. rewrite map_map. apply map_ext. intros i. q2r. Qed.
+Lemma holo_px_Q_R p1 p2 sc E :
+  Q2R (holo_px QO p1 p2 sc E)
+  = holo_px RO (Q2R p1) (Q2R p2) (Q2R sc)
+      (let '((xr, xi), (yr, yi), (zr, zi)) := E in ((Q2R xr, Q2R xi), (Q2R yr, Q2R yi), (Q2R zr, Q2R zi))).
+Proof. destruct E as [[[xr xi] [yr yi]] [zr zi]]. unfold holo_px, sq. q2r. Qed.
